@@ -148,6 +148,37 @@ func DoOp(c *nbio.Conn, op Op, w, seq int) Call {
 		n = int(n64)
 		f.Close()
 		os.Remove(name)
+	case "sendfile-empty":
+		// a file with nothing left to send: empty (Off == 0) or positioned at
+		// its end (Off > 0); the length argument is 0 ("to the end") or more
+		// than what is left. Nothing may be transmitted for it and it must
+		// not disturb what is queued around it.
+		name := fmt.Sprintf("%s/f%d", scratch(), id)
+		junk := make([]byte, op.Off)
+		for i := range junk {
+			junk[i] = 0xEE
+		}
+		if e := os.WriteFile(name, junk, 0o600); e != nil {
+			call.Err = "harness: " + e.Error()
+			return call
+		}
+		f, e := os.Open(name)
+		if e != nil {
+			call.Err = "harness: " + e.Error()
+			return call
+		}
+		_, _ = f.Seek(int64(op.Off), io.SeekStart)
+		ask := int64(0)
+		if op.Off%2 == 1 {
+			ask = 1000
+		}
+		call.TCall = Tick()
+		var n64 int64
+		n64, err = c.Sendfile(f, ask)
+		call.TRet = Tick()
+		n = int(n64)
+		f.Close()
+		os.Remove(name)
 	}
 	call.N = n
 	if err != nil {
